@@ -10,11 +10,24 @@
 //                                             [minlen,maxlen] over keys 0..keys-1, every rank (one line per tuple)
 // <cmp>: L = std::less<int>, G = std::greater<int>, Q = less on x/4 (a strict weak order with distinct
 // equivalent elements; the selected value is printed as x/4).  A <seq> is a comma separated list of ints,
-// sorted w.r.t. <cmp>.  With "-s" as 2nd argument every answer is also compared with a brute-force stable merge
+// sorted w.r.t. <cmp>.
+//
+// Template degrees of freedom of the two function templates.  The answer does not depend on them (the model is
+// type-agnostic), so they are *varied*, not printed: ten variants combine
+//   RankType      int, long, long long, unsigned int, std::size_t
+//   iterators     std::vector<T>::iterator, T* (raw pointers), std::deque<T>::iterator
+//   RanSeqs       vector<pair>::iterator, pair*, vector<pair>::const_iterator; offsets via iterator or raw pointer
+//   element type  int, struct KV {key, payload} compared by key only
+//   comparator    the plain functor, a by-key adaptor, a stateful non-default-constructible wrapper
+// `one` and `all` lines run EVERY variant on every rank; if a variant disagrees with variant 0 its answer is printed
+// as an additional entry for the same rank plus a token "#v=<variant>" (the checker judges every entry).  `exh`
+// lines rotate through the variants (entry k uses variant k mod 10).  The last output line "#VARIANTS ..." gives the
+// number of calls per variant.  With "-s" as 2nd argument every answer is also compared with a brute-force stable merge
 // (development aid only; the check uses the Coq model and the Coq checker).
 #include <algorithm>
 #include <cstdio>
 #include <cstdlib>
+#include <deque>
 #include <exception>
 #include <fstream>
 #include <functional>
@@ -59,45 +72,169 @@ static void brute(std::vector<Seq>& seqs, diff_t rank, std::vector<diff_t>& cnt,
     }
 }
 
-template <typename Comp>
-static void run_rank(std::vector<Seq>& seqs, diff_t rank, std::string& out, Comp comp) {
-    size_t m = seqs.size();
-    std::vector<std::pair<It, It>> iters;
-    diff_t N = 0;
-    for (auto& s : seqs) { iters.push_back(std::make_pair(s.begin(), s.end())); N += static_cast<diff_t>(s.size()); }
-    std::vector<It> offs(m);
-    tlx::multisequence_partition(iters.begin(), iters.end(), rank, offs.begin(), comp);
-    char buf[64];
-    snprintf(buf, sizeof buf, " %ld:", static_cast<long>(rank));
-    out += buf;
-    std::vector<diff_t> got(m);
-    for (size_t i = 0; i < m; ++i) {
-        got[i] = offs[i] - seqs[i].begin();
-        snprintf(buf, sizeof buf, "%s%ld", i ? "," : "", static_cast<long>(got[i]));
-        out += buf;
-    }
-    diff_t soff = -1;
+struct KV {
+    int key;
+    int payload;
+};
+static inline int key_of(int x) { return x; }
+static inline int key_of(const KV& x) { return x.key; }
+static inline void make_elem(int& e, int x, int) { e = x; }
+static inline void make_elem(KV& e, int x, int tag) { e.key = x; e.payload = tag; }
+
+// compares KV by key only
+template <typename Base>
+struct ByKey {
+    Base base;
+    explicit ByKey(Base b) : base(b) {}
+    bool operator()(const KV& a, const KV& b) const { return base(a.key, b.key); }
+};
+// stateful comparator object without default constructor (counts its calls through a pointer)
+static long g_cmp_calls = 0;
+template <typename Base>
+struct Stateful {
+    Base base;
+    long* calls;
+    Stateful(Base b, long* c) : base(b), calls(c) {}
+    template <typename T>
+    bool operator()(const T& a, const T& b) const { ++*calls; return base(a, b); }
+};
+
+struct Answer {
+    std::vector<long> offs;
     bool thrown = false;
     int v = 0;
-    try {
-        v = tlx::multisequence_selection<int>(iters.begin(), iters.end(), rank, soff, comp);
-    } catch (std::exception&) {
-        thrown = true;
+    long soff = -1;
+    bool operator==(const Answer& o) const {
+        return offs == o.offs && thrown == o.thrown && (thrown || (v == o.v && soff == o.soff));
     }
-    if (thrown) out += ":throw";
-    else { snprintf(buf, sizeof buf, ":%d:%ld", show_val<Comp>(v), static_cast<long>(soff)); out += buf; }
+};
+
+// all containers of one tuple
+struct Tuple {
+    std::vector<std::vector<int>> vi;
+    std::vector<std::deque<int>> di;
+    std::vector<std::vector<KV>> vk;
+    std::vector<std::deque<KV>> dk;
+    explicit Tuple(const std::vector<Seq>& seqs) : vi(seqs), di(seqs.size()), vk(seqs.size()), dk(seqs.size()) {
+        for (size_t i = 0; i < seqs.size(); ++i)
+            for (size_t p = 0; p < seqs[i].size(); ++p) {
+                di[i].push_back(seqs[i][p]);
+                KV e; make_elem(e, seqs[i][p], static_cast<int>(i * 100000 + p));
+                vk[i].push_back(e); dk[i].push_back(e);
+            }
+    }
+};
+template <typename C>
+static std::vector<std::pair<typename C::iterator, typename C::iterator>> iter_pairs(std::vector<C>& cs) {
+    std::vector<std::pair<typename C::iterator, typename C::iterator>> r;
+    for (auto& c : cs) r.push_back(std::make_pair(c.begin(), c.end()));
+    return r;
+}
+template <typename E>
+static std::vector<std::pair<E*, E*>> ptr_pairs(std::vector<std::vector<E>>& cs) {
+    std::vector<std::pair<E*, E*>> r;
+    for (auto& c : cs) r.push_back(std::make_pair(c.data(), c.data() + c.size()));
+    return r;
+}
+
+// RK: how the sequence of iterator pairs and the offsets are passed (0 iterators, 1 raw pointers, 2 const_iterator)
+template <typename RankT, int RK, typename ShowComp, typename It, typename Comp>
+static Answer run_one(std::vector<std::pair<It, It>> iters, long rank, Comp comp) {
+    typedef typename std::iterator_traits<It>::value_type Elem;
+    size_t m = iters.size();
+    std::vector<It> offs(m);
+    RankT rk = static_cast<RankT>(rank);
+    RankT soff = static_cast<RankT>(-1);
+    Answer a;
+    Elem v = Elem();
+    if constexpr (RK == 0) {
+        tlx::multisequence_partition(iters.begin(), iters.end(), rk, offs.begin(), comp);
+        try { v = tlx::multisequence_selection<Elem>(iters.begin(), iters.end(), rk, soff, comp); }
+        catch (std::exception&) { a.thrown = true; }
+    } else if constexpr (RK == 1) {
+        tlx::multisequence_partition(iters.data(), iters.data() + m, rk, offs.data(), comp);
+        try { v = tlx::multisequence_selection<Elem>(iters.data(), iters.data() + m, rk, soff, comp); }
+        catch (std::exception&) { a.thrown = true; }
+    } else {
+        tlx::multisequence_partition(iters.cbegin(), iters.cend(), rk, offs.begin(), comp);
+        try { v = tlx::multisequence_selection<Elem>(iters.cbegin(), iters.cend(), rk, soff, comp); }
+        catch (std::exception&) { a.thrown = true; }
+    }
+    for (size_t i = 0; i < m; ++i) a.offs.push_back(static_cast<long>(offs[i] - iters[i].first));
+    a.v = show_val<ShowComp>(key_of(v));
+    a.soff = static_cast<long>(soff);
+    return a;
+}
+
+static const int NVARIANTS = 10;
+static const char* const VARIANT_NAME[NVARIANTS] = {
+    "long/vector-iter/int/plain/iter",        "size_t/vector-iter/int/plain/iter",
+    "int/pointer/int/plain/ptr",              "uint/deque-iter/int/plain/iter",
+    "longlong/vector-iter/KV/bykey/const-iter", "size_t/deque-iter/KV/stateful/iter",
+    "int/vector-iter/int/stateful/iter",      "size_t/pointer/KV/bykey/ptr",
+    "longlong/deque-iter/int/plain/const-iter", "uint/pointer/KV/stateful/ptr"};
+static long g_variant_calls[NVARIANTS];
+
+template <typename Comp>
+static Answer run_variant(int k, Tuple& T, long rank, Comp comp) {
+    ++g_variant_calls[k];
+    ByKey<Comp> bk(comp);
+    switch (k) {
+    case 0: return run_one<long, 0, Comp>(iter_pairs(T.vi), rank, comp);
+    case 1: return run_one<std::size_t, 0, Comp>(iter_pairs(T.vi), rank, comp);
+    case 2: return run_one<int, 1, Comp>(ptr_pairs(T.vi), rank, comp);
+    case 3: return run_one<unsigned int, 0, Comp>(iter_pairs(T.di), rank, comp);
+    case 4: return run_one<long long, 2, Comp>(iter_pairs(T.vk), rank, bk);
+    case 5: return run_one<std::size_t, 0, Comp>(iter_pairs(T.dk), rank, Stateful<ByKey<Comp>>(bk, &g_cmp_calls));
+    case 6: return run_one<int, 0, Comp>(iter_pairs(T.vi), rank, Stateful<Comp>(comp, &g_cmp_calls));
+    case 7: return run_one<unsigned long, 1, Comp>(ptr_pairs(T.vk), rank, bk);
+    case 8: return run_one<long long, 2, Comp>(iter_pairs(T.di), rank, comp);
+    default: return run_one<unsigned int, 1, Comp>(ptr_pairs(T.vk), rank, Stateful<ByKey<Comp>>(bk, &g_cmp_calls));
+    }
+}
+
+static void show_answer(long rank, const Answer& a, std::string& out) {
+    char buf[64];
+    snprintf(buf, sizeof buf, " %ld:", rank);
+    out += buf;
+    for (size_t i = 0; i < a.offs.size(); ++i) {
+        snprintf(buf, sizeof buf, "%s%ld", i ? "," : "", a.offs[i]);
+        out += buf;
+    }
+    if (a.thrown) out += ":throw";
+    else { snprintf(buf, sizeof buf, ":%d:%ld", a.v, a.soff); out += buf; }
+}
+
+static long g_entry = 0;   // rotates the variants over the enumerations
+
+// every_variant: run all variants (one / all lines); else variant (entry number mod NVARIANTS)
+template <typename Comp>
+static void run_rank(std::vector<Seq>& seqs, Tuple& T, diff_t rank, std::string& out, std::string& tags, bool every_variant, Comp comp) {
+    size_t m = seqs.size();
+    diff_t N = 0;
+    for (auto& s : seqs) N += static_cast<diff_t>(s.size());
+    int k0 = every_variant ? 0 : static_cast<int>(g_entry % NVARIANTS);
+    ++g_entry;
+    Answer a = run_variant(k0, T, rank, comp);
+    show_answer(rank, a, out);
+    if (every_variant)
+        for (int k = 1; k < NVARIANTS; ++k) {
+            Answer b = run_variant(k, T, rank, comp);
+            if (!(b == a)) { show_answer(rank, b, out); tags += " #v="; tags += VARIANT_NAME[k]; }
+        }
     if (g_self) {
         std::vector<diff_t> want;
         brute(seqs, rank, want, comp);
-        bool bad = (want != got);
+        std::vector<long> w(want.begin(), want.end());
+        bool bad = (w != a.offs);
         if (rank < N) {
             // element at that rank of the merged order and its offset among the equivalent ones
             std::vector<diff_t> w1; brute(seqs, rank + 1, w1, comp);
             int ev = 0; for (size_t i = 0; i < m; ++i) if (w1[i] != want[i]) ev = seqs[i][want[i]];
             diff_t eo = 0;
             for (size_t i = 0; i < m; ++i) for (diff_t p = 0; p < want[i]; ++p) if (!comp(seqs[i][p], ev) && !comp(ev, seqs[i][p])) ++eo;
-            if (thrown || comp(v, ev) || comp(ev, v) || eo != soff) bad = true;
-        } else if (!thrown) bad = true;
+            if (a.thrown || a.v != show_val<Comp>(ev) || eo != a.soff) bad = true;
+        } else if (!a.thrown) bad = true;
         if (bad) { ++g_self_fail; out += "!SELF"; }
     }
 }
@@ -132,18 +269,21 @@ static std::string show_seqs(const std::vector<Seq>& seqs) {
 }
 
 template <typename Comp>
-static void run_tuple(const char* cname, std::vector<Seq>& seqs, diff_t only_rank, Comp comp) {
+static void run_tuple(const char* cname, std::vector<Seq>& seqs, diff_t only_rank, bool every_variant, Comp comp) {
     std::string out = cname; out += " "; out += show_seqs(seqs); out += " =>";
+    std::string tags;
+    Tuple T(seqs);
     diff_t N = 0; for (auto& s : seqs) N += static_cast<diff_t>(s.size());
-    if (only_rank >= 0) run_rank(seqs, only_rank, out, comp);
-    else for (diff_t r = 0; r <= N; ++r) run_rank(seqs, r, out, comp);
+    if (only_rank >= 0) run_rank(seqs, T, only_rank, out, tags, every_variant, comp);
+    else for (diff_t r = 0; r <= N; ++r) run_rank(seqs, T, r, out, tags, every_variant, comp);
+    out += tags;
     puts(out.c_str());
 }
 
-static void dispatch(const std::string& c, std::vector<Seq>& seqs, diff_t only_rank) {
-    if (c == "L") run_tuple("L", seqs, only_rank, std::less<int>());
-    else if (c == "G") run_tuple("G", seqs, only_rank, std::greater<int>());
-    else run_tuple("Q", seqs, only_rank, QLess());
+static void dispatch(const std::string& c, std::vector<Seq>& seqs, diff_t only_rank, bool every_variant) {
+    if (c == "L") run_tuple("L", seqs, only_rank, every_variant, std::less<int>());
+    else if (c == "G") run_tuple("G", seqs, only_rank, every_variant, std::greater<int>());
+    else run_tuple("Q", seqs, only_rank, every_variant, QLess());
 }
 
 // all non-decreasing sequences over 0..keys-1 with lengths minlen..maxlen, by length then lexicographically
@@ -161,7 +301,7 @@ static void run_exh(const std::string& c, int m, int minlen, int maxlen, int key
     for (;;) {
         std::vector<Seq> seqs;
         for (int i = 0; i < m; ++i) seqs.push_back(pool[idx[i]]);
-        dispatch(c, seqs, -1);
+        dispatch(c, seqs, -1, false);
         int k = m - 1;
         while (k >= 0 && ++idx[k] == pool.size()) { idx[k] = 0; --k; }
         if (k < 0) break;
@@ -180,11 +320,11 @@ int main(int argc, char** argv) {
         if (kind == "one") {
             long rank; std::string s; ls >> c >> rank >> s;
             std::vector<Seq> seqs = parse_seqs(s);
-            dispatch(c, seqs, rank);
+            dispatch(c, seqs, rank, true);
         } else if (kind == "all") {
             std::string s; ls >> c >> s;
             std::vector<Seq> seqs = parse_seqs(s);
-            dispatch(c, seqs, -1);
+            dispatch(c, seqs, -1, true);
         } else if (kind == "exh") {
             int m, lo, hi, keys; ls >> c >> m >> lo >> hi >> keys;
             run_exh(c, m, lo, hi, keys);
@@ -193,6 +333,9 @@ int main(int argc, char** argv) {
         }
         fflush(stdout);
     }
+    std::string vs = "#VARIANTS";
+    for (int k = 0; k < NVARIANTS; ++k) { char buf[96]; snprintf(buf, sizeof buf, " %s=%ld", VARIANT_NAME[k], g_variant_calls[k]); vs += buf; }
+    puts(vs.c_str());
     if (g_self) fprintf(stderr, "selfcheck failures: %ld\n", g_self_fail);
     return 0;
 }
